@@ -797,13 +797,45 @@ class DynamicSlicer:
                 self._logger.debug("DEREF VARIABLE USE: '%s'", argument)
                 context.nonlocal_var_uses.add((
                     argument,
-                    tuple(variable_scope),
+                    # The cell can also be written (``nonlocal``) by any function nested in
+                    # its owner that refers to it as a free variable, not only by the code
+                    # objects between the use and the owner.
+                    tuple(
+                        variable_scope
+                        | self._free_variable_users(argument, current_code_object_id)
+                    ),
                 ))
             else:
                 # There should be no other possible instructions
                 raise AssertionError(
                     f"Instruction {traced_instr} can not be analyzed for definitions."
                 )
+
+    def _free_variable_users(self, name: str, owner_code_object_id: int) -> set[int]:
+        """Code objects nested in the owner of a cell that share the cell as a free variable.
+
+        Args:
+            name: The name of the cell variable
+            owner_code_object_id: The code object that owns the cell
+
+        Returns:
+            The ids of the nested code objects that reference the owner's cell
+        """
+        users: set[int] = set()
+        for code_object_id, code_meta in self._known_code_objects.items():
+            if code_meta is None or name not in code_meta.code_object.co_freevars:
+                continue
+            current = code_meta
+            while current is not None and current.parent_code_object_id is not None:
+                parent_id = current.parent_code_object_id
+                if parent_id == owner_code_object_id:
+                    users.add(code_object_id)
+                    break
+                current = self._known_code_objects.get(parent_id)
+                if current is None or name in current.code_object.co_cellvars:
+                    # a different cell of the same name shadows the owner's cell
+                    break
+        return users
 
     def _add_attribute_uses(
         self,
